@@ -18,6 +18,12 @@ LEVEL = "model_checking"
 UTC = datetime.timezone.utc
 
 CALLS = [("profile", "dryrun"), ("profile", "normal")] + [(c, m) for c in ("statements", "accounts", "tax") for m in ("dryrun", "skip_profile", "normal")]
+# statement kinds the profile may not list (closing statements, credit card): they too go to an advertised URL
+CALLS += [("stmtend", "normal"), ("ccstmt", "normal")]
+# "timeout": a normal call during which the server accepts the request of that kind and then never answers
+CALLS += [(c, "timeout") for c in ("profile", "statements", "accounts", "tax")]
+WIREKIND = {"stmtend": "statements", "ccstmt": "statements"}
+BANK_ONLY = "other-path-bank-only"
 
 
 def cache_dir():
@@ -47,7 +53,7 @@ class System:
         if self.advertise == "same":
             return cfg["url"]
         p = urllib.parse.urlsplit(cfg["url"])
-        if self.advertise == "other-path":
+        if self.advertise == BANK_ONLY:
             return f"{p.scheme}://{p.netloc}/service{p.path}"
         return f"{p.scheme}://svc.{p.netloc.split('.', 1)[1]}{p.path}"
 
@@ -59,6 +65,10 @@ class System:
             n = self.moves.get(cfg["url"], 0)
             u = f"{p.scheme}://{p.netloc}/svc{n % 2}{p.path}"
             return {"bank": u, "cc": u, "inv": u}
+        if self.advertise == BANK_ONLY:
+            # only the banking message set, closing statements not available: the profile says nothing about the
+            # URL for closing-statement and credit-card requests
+            return {"bank": self.service_url(cfg)}
         if self.advertise != "split":
             u = self.service_url(cfg)
             return {"bank": u, "cc": u, "inv": u}
@@ -71,6 +81,15 @@ class System:
         ua = ex.headers.get("user-agent", "?")
         cookies = []
         flag = (ua, host)
+        if self.timeout_kind is not None:
+            try:
+                kind = F.read_request(ex.body)["kind"]
+            except Exception:
+                kind = None
+            if kind == self.timeout_kind:
+                import socket
+
+                raise socket.timeout("timed out")
         if self.cookiepolicy == "every" or (self.cookiepolicy == "first" and flag not in self.first_sent):
             cookies = [f"SID={ua}.{host.split('.')[0]}.{host.split('.')[1]}; Path=/", f"PREF=p-{ua}; Path=/"]
             self.first_sent.add(flag)
@@ -91,14 +110,14 @@ class System:
             if rq["dtprofup_ms"] >= 1577836800000 and self.advertise != "moving":
                 body = F.profile_response(rq["trnuids"][0], prof_date, {}, status=1)
             else:
-                body = F.profile_response(rq["trnuids"][0], prof_date, adv)
+                body = F.profile_response(rq["trnuids"][0], prof_date, adv, closingavail=self.advertise != BANK_ONLY)
             return F.ok(body, cookies)
         body = F.generic_response(rq["kind"], rq["trnuids"])
         return F.ok(body, cookies)
 
     # -- replay -----------------------------------------------------------------------------
     def replay(self, history):
-        from ofxtools.Client import AUTH_PLACEHOLDER, OFXClient, StmtRq
+        from ofxtools.Client import AUTH_PLACEHOLDER, CcStmtRq, OFXClient, StmtEndRq, StmtRq
 
         d = cache_dir()
         if d.exists():
@@ -109,6 +128,7 @@ class System:
         self.cookies_set = {}
         self.moves = {}
         self.last_advertised = None
+        self.timeout_kind = None
         clients = {}
         cfgs = {}
         for who in ("A", "B"):
@@ -127,6 +147,7 @@ class System:
                 kw["dryrun"] = True
             elif mode == "skip_profile":
                 kw["skip_profile"] = True
+            self.timeout_kind = WIREKIND.get(call, call) if mode == "timeout" else None
             try:
                 with warnings.catch_warnings():
                     warnings.simplefilter("ignore")
@@ -134,6 +155,10 @@ class System:
                         ret = cl.request_profile(**kw)
                     elif call == "statements":
                         ret = cl.request_statements(cfg["password"], StmtRq(acctid="111", accttype="CHECKING"), **kw)
+                    elif call == "stmtend":
+                        ret = cl.request_statements(cfg["password"], StmtEndRq(acctid="111", accttype="CHECKING"), **kw)
+                    elif call == "ccstmt":
+                        ret = cl.request_statements(cfg["password"], CcStmtRq(acctid="4111"), **kw)
                     elif call == "accounts":
                         ret = cl.request_accounts(cfg["password"], datetime.datetime(2020, 1, 1, tzinfo=UTC), **kw)
                     else:
@@ -141,6 +166,7 @@ class System:
                 err = None
             except Exception as e:
                 ret, err = None, e
+            self.timeout_kind = None
             if last:
                 fails = self.check_event(history, who, call, mode, cfg, cfgs, ret, err, self.net.log[n0:], expected_cookies_before, AUTH_PLACEHOLDER)
         key = self.key(clients)
@@ -164,8 +190,12 @@ class System:
             fails.append((f"{sigbase}|{kind}", case, detail))
 
         split_refusal = False
-        if err is not None:
-            if self.advertise == "split" and mode == "normal" and call != "profile":
+        timed_out = False
+        if err is not None and mode == "timeout" and isinstance(err, OSError) and exchanges and exchanges[-1].error:
+            # the server never answered: the call fails - having sent the request once
+            timed_out = True
+        elif err is not None:
+            if self.advertise == "split" and mode in ("normal", "timeout") and call != "profile":
                 # the profile advertises different URLs per service: refusing to send is acceptable, as long as
                 # nothing carrying the credentials left the client
                 split_refusal = True
@@ -187,12 +217,16 @@ class System:
         else:
             svc = self.service_url(cfg) if self.advertise != "split" else set(self.advertised(cfg).values())
         want = []
+        wk = WIREKIND.get(call, call)
         if call == "profile":
             want = [("profile", cfg["url"], False)]
         elif mode == "skip_profile":
-            want = [(call, cfg["url"], True)]
+            want = [(wk, cfg["url"], True)]
         else:
-            want = [("profile", cfg["url"], False), (call, svc, True)]
+            want = [("profile", cfg["url"], False), (wk, svc, True)]
+        if mode == "timeout" and not timed_out and not split_refusal:
+            fail("unanswered-request-did-not-fail", f"{exchanges} returned {ret!r}")
+            return fails
         if split_refusal:
             want = want[:1]
         if len(exchanges) != len(want):
@@ -249,7 +283,7 @@ class System:
                     if k == "Set-Cookie":
                         nm, _, val = v.split(";")[0].partition("=")
                         cookies.setdefault((cfg["useragent"], host), {})[nm] = val
-        if split_refusal:
+        if split_refusal or timed_out:
             return fails
         # the call returns what the server sent
         try:
@@ -263,7 +297,7 @@ class System:
         return fails
 
 
-CONFIGS = [(adv, pol, pair) for adv in ("same", "other-path", "other-host", "split", "moving") for pol in ("none", "first", "every") for pair in ("same-server", "other-server")]
+CONFIGS = [(adv, pol, pair) for adv in ("same", BANK_ONLY, "other-host", "split", "moving") for pol in ("none", "first", "every") for pair in ("same-server", "other-server")]
 
 
 def explore(args):
@@ -324,9 +358,9 @@ def run(ctx):
         "systems_at_fixpoint": tally.counts.get("fixpoints", 0),
         "depth_bound": depth,
         "max_depth_with_new_state": md,
-        "rule": ("16 of the 30" if ctx.quick else "all 30") + " closed systems = profile advertising {same URL, other path, other host, a different URL per service, a server that re-sends its profile with an unchanged date but an alternating service URL} x server cookie policy {none, first response, every response} x second client "
-        "{same server, other server}; per system BFS over all event sequences (22 events: 2 clients x {profile: dryrun/normal; statements, accounts, tax: dryrun/skip_profile/"
-        "normal}) to the depth bound, states de-duplicated on (both cookie jars, cached profile files, server cookie flags) - every field future requests can depend on; every "
+        "rule": ("16 of the 30" if ctx.quick else "all 30") + " closed systems = profile advertising {same URL, other path for a banking-only profile without closing statements, other host, a different URL per service, a server that re-sends its profile with an unchanged date but an alternating service URL} x server cookie policy {none, first response, every response} x second client "
+        "{same server, other server}; per system BFS over all event sequences (34 events: 2 clients x {profile: dryrun/normal; statements, accounts, tax: dryrun/skip_profile/"
+        "normal; closing-statement and credit-card statement requests: normal; each of the four kinds with a server that takes the request and never answers}) to the depth bound, states de-duplicated on (both cookie jars, cached profile files, server cookie flags) - every field future requests can depend on; every "
         "transition executes the real OFXClient against the scripted server and checks that event's HTTP exchanges against the model (count, method, URL, headers, anonymous vs "
         "real credentials, exact cookie set, returned bytes)",
         "exhaustive": True,
